@@ -58,7 +58,7 @@ func (rt *runtimeState) cancelCtx(c *ctxObj, err Value) {
 	}
 	c.err = err
 	if !c.done.closed {
-		c.done.closed = true
+		rt.closeChan(c.done)
 	}
 	if c.timer != nil {
 		c.timer.armed = false
